@@ -38,6 +38,8 @@ type inVal struct {
 	goLit string
 	pin   func(term string) string
 	show  string
+	strs  []string // Go expressions of the strings inside this value (vocabulary facts are computed at them)
+	ints  []string // Go expressions of the integers inside it
 }
 
 func bigPow(b int64, e int) *big.Int {
@@ -49,7 +51,7 @@ var stringPool = []string{"", "a", "b", "ab", "abc", "A", "0", "1", "-1", "+1", 
 	"18446744073709551615", "18446744073709551616", "12345678901234567890123456789012345678901234567890123456789012345678901234567890",
 	"115792089237316195423570985008687907853269984665640564039457584007913129639935", "115792089237316195423570985008687907853269984665640564039457584007913129639936",
 	"channel-0", "channel-", "channel-01", "channel-18446744073709551615", "channel-18446744073709551616", "Channel-1", "channel-1 ",
-	"/", "a/b", "a/b/c", "transfer/channel-0/uusdc", "xtransfer/channel-0/uusdc", "transfer/channel-0/", "uusdc", ":", "1:a", "1:", ":a", "a:b:c", "é", "a\x00b"}
+	"1:a:b", "4:a:b", "4:x", "2:7", "3:1:2", "4:", "/", "a/b", "a/b/c", "transfer/channel-0/uusdc", "xtransfer/channel-0/uusdc", "transfer/channel-0/", "uusdc", ":", "1:a", "1:", ":a", "a:b:c", "é", "a\x00b"}
 
 func intCandidates(t types.Type) []*big.Int {
 	bits, signed, _ := intBits(t)
@@ -158,6 +160,63 @@ func candidatesFor(t types.Type, pkg *types.Package, imports map[string]string, 
 				continue // NewIntFromBigInt itself panics above 256 bits; not a value of the type
 			}
 			out = append(out, mintVal(n, imports))
+		}
+		return out
+	}
+	if _, st, ok := plainStruct(t); ok && curReg != nil {
+		si := curReg.structInfoOf(t)
+		if si == nil || len(si.fields) != st.NumFields() {
+			return nil
+		}
+		var fc [][]inVal
+		for i := 0; i < st.NumFields(); i++ {
+			c := candidatesFor(st.Field(i).Type(), pkg, imports, extraStrings, extraInts)
+			if len(c) == 0 {
+				return nil
+			}
+			fc = append(fc, c)
+		}
+		tn := goTypeName(t, pkg, imports)
+		rng := rand.New(rand.NewSource(7))
+		seen := map[string]bool{}
+		for tries := 0; len(out) < 60 && tries < 600; tries++ {
+			var lits, shows []string
+			var pinsF []func(string) string
+			for i := range fc {
+				var v inVal
+				if tries < 14 {
+					v = fc[i][(tries+3*i)%len(fc[i])] // the first candidates of every field (nil, 0, 1, "", ...) are always tried
+				} else {
+					v = fc[i][rng.Intn(len(fc[i]))]
+				}
+				lits = append(lits, st.Field(i).Name()+": "+v.goLit)
+				shows = append(shows, st.Field(i).Name()+": "+v.show)
+				acc := accessor(si, i)
+				vp := v.pin
+				pinsF = append(pinsF, func(term string) string { return vp("(" + acc + " " + term + ")") })
+			}
+			lit := tn + "{" + strings.Join(lits, ", ") + "}"
+			if seen[lit] {
+				continue
+			}
+			seen[lit] = true
+			iv := inVal{goLit: lit, show: "{" + strings.Join(shows, ", ") + "}", pin: func(term string) string {
+				var ps []string
+				for _, f := range pinsF {
+					ps = append(ps, f(term))
+				}
+				return strings.Join(ps, "\n")
+			}}
+			for i := 0; i < st.NumFields(); i++ {
+				if b, ok := types.Unalias(st.Field(i).Type()).Underlying().(*types.Basic); ok && !isMathInt(st.Field(i).Type()) {
+					if b.Info()&types.IsString != 0 {
+						iv.strs = append(iv.strs, "string(("+lit+")."+st.Field(i).Name()+")")
+					} else if b.Info()&types.IsInteger != 0 {
+						iv.ints = append(iv.ints, "fmt.Sprint(("+lit+")."+st.Field(i).Name()+")")
+					}
+				}
+			}
+			out = append(out, iv)
 		}
 		return out
 	}
@@ -339,30 +398,86 @@ func genTuples(ptypes []types.Type, pkg *types.Package, imports map[string]strin
 	return out
 }
 
+// recordExpr: a Go statement that stores the value of expr (of type t) into the map `out` under key
+func recordExpr(key, expr string, t types.Type) string {
+	switch {
+	case types.Identical(t, types.Universe.Lookup("error").Type()):
+		return fmt.Sprintf(`out["%s_nil"] = %s == nil; if %s != nil { out["%s_text"] = %s.Error() }`, key, expr, expr, key, expr)
+	case isMathInt(t):
+		return fmt.Sprintf(`out["%s_nil"] = %s.IsNil(); if !%s.IsNil() { out["%s"] = %s.String() }`, key, expr, expr, key, expr)
+	}
+	if _, st, ok := plainStruct(t); ok {
+		var parts []string
+		for i := 0; i < st.NumFields(); i++ {
+			parts = append(parts, recordExpr(key+"."+st.Field(i).Name(), expr+"."+st.Field(i).Name(), st.Field(i).Type()))
+		}
+		return strings.Join(parts, "; ")
+	}
+	if b, ok := types.Unalias(t).Underlying().(*types.Basic); ok {
+		switch {
+		case b.Info()&types.IsInteger != 0:
+			return fmt.Sprintf(`out["%s"] = fmt.Sprintf("%%d", %s)`, key, expr)
+		case b.Info()&types.IsString != 0:
+			return fmt.Sprintf(`out["%s"] = string(%s)`, key, expr)
+		case b.Info()&types.IsBoolean != 0:
+			return fmt.Sprintf(`out["%s"] = bool(%s)`, key, expr)
+		}
+	}
+	return fmt.Sprintf(`_ = %s`, expr)
+}
+
 // recordStmts: Go statements that store the results r0, r1, ... of a call into the map `out`.
 func recordStmts(sig *types.Signature) (lhs, record []string) {
 	for i := 0; i < sig.Results().Len(); i++ {
 		r := fmt.Sprintf("r%d", i)
 		lhs = append(lhs, r)
-		rt := sig.Results().At(i).Type()
-		switch {
-		case types.Identical(rt, types.Universe.Lookup("error").Type()):
-			record = append(record, fmt.Sprintf(`out["%s_nil"] = %s == nil; if %s != nil { out["%s_text"] = %s.Error() }`, r, r, r, r, r))
-		case isMathInt(rt):
-			record = append(record, fmt.Sprintf(`out["%s_nil"] = %s.IsNil(); if !%s.IsNil() { out["%s"] = %s.String() }`, r, r, r, r, r))
-		default:
-			if b, ok := types.Unalias(rt).Underlying().(*types.Basic); ok && b.Info()&types.IsInteger != 0 {
-				record = append(record, fmt.Sprintf(`out["%s"] = fmt.Sprintf("%%d", %s)`, r, r))
-			} else if ok && b.Info()&types.IsString != 0 {
-				record = append(record, fmt.Sprintf(`out["%s"] = string(%s)`, r, r))
-			} else if ok && b.Info()&types.IsBoolean != 0 {
-				record = append(record, fmt.Sprintf(`out["%s"] = bool(%s)`, r, r))
-			} else {
-				record = append(record, fmt.Sprintf(`_ = %s`, r))
-			}
-		}
+		record = append(record, recordExpr(r, r, sig.Results().At(i).Type()))
 	}
 	return
+}
+
+// pinObserved: SMT assertions pinning term (of type t) to what was observed under key
+func pinObserved(key, term string, t types.Type, obs map[string]interface{}) (pins []string, complete bool) {
+	switch {
+	case types.Identical(t, types.Universe.Lookup("error").Type()):
+		if isNil, ok := obs[key+"_nil"].(bool); ok {
+			if isNil {
+				return []string{"(assert (= (itag " + term + ") 0))"}, true
+			}
+			return []string{"(assert (not (= (itag " + term + ") 0)))"}, true
+		}
+		return nil, false
+	case isMathInt(t):
+		if isNil, ok := obs[key+"_nil"].(bool); ok && isNil {
+			return []string{"(assert (mi!nil " + term + "))"}, true
+		} else if s, ok := obs[key].(string); ok {
+			return []string{"(assert (= " + term + " (mkMInt false " + smtInt(s) + ")))"}, true
+		}
+		return nil, false
+	}
+	if _, st, ok := plainStruct(t); ok && curReg != nil {
+		si := curReg.structInfoOf(t)
+		if si == nil || len(si.fields) != st.NumFields() {
+			return nil, false
+		}
+		complete = true
+		for i := 0; i < st.NumFields(); i++ {
+			p, ok := pinObserved(key+"."+st.Field(i).Name(), "("+accessor(si, i)+" "+term+")", st.Field(i).Type(), obs)
+			pins = append(pins, p...)
+			complete = complete && ok
+		}
+		return pins, complete
+	}
+	switch v := obs[key].(type) {
+	case string:
+		if b, ok := types.Unalias(t).Underlying().(*types.Basic); ok && b.Info()&types.IsInteger != 0 {
+			return []string{"(assert (= " + term + " " + smtInt(v) + "))"}, true
+		}
+		return []string{"(assert (= " + term + " " + smtString(v) + "))"}, true
+	case bool:
+		return []string{fmt.Sprintf("(assert (= %s %v))", term, v)}, true
+	}
+	return nil, false
 }
 
 // resultPins: SMT assertions pinning the result terms to what was observed; complete is false when some
@@ -370,42 +485,9 @@ func recordStmts(sig *types.Signature) (lhs, record []string) {
 func resultPins(sig *types.Signature, results []Val, obs map[string]interface{}) (pins []string, complete bool) {
 	complete = true
 	for k := 0; k < sig.Results().Len() && k < len(results); k++ {
-		r := fmt.Sprintf("r%d", k)
-		t := results[k].t
-		rt := sig.Results().At(k).Type()
-		switch {
-		case types.Identical(rt, types.Universe.Lookup("error").Type()):
-			if isNil, ok := obs[r+"_nil"].(bool); ok {
-				if isNil {
-					pins = append(pins, "(assert (= (itag "+t+") 0))")
-				} else {
-					pins = append(pins, "(assert (not (= (itag "+t+") 0)))")
-				}
-			} else {
-				complete = false
-			}
-		case isMathInt(rt):
-			if isNil, ok := obs[r+"_nil"].(bool); ok && isNil {
-				pins = append(pins, "(assert (mi!nil "+t+"))")
-			} else if s, ok := obs[r].(string); ok {
-				pins = append(pins, "(assert (= "+t+" (mkMInt false "+smtInt(s)+")))")
-			} else {
-				complete = false
-			}
-		default:
-			switch v := obs[r].(type) {
-			case string:
-				if b, ok := types.Unalias(rt).Underlying().(*types.Basic); ok && b.Info()&types.IsInteger != 0 {
-					pins = append(pins, "(assert (= "+t+" "+smtInt(v)+"))")
-				} else {
-					pins = append(pins, "(assert (= "+t+" "+smtString(v)+"))")
-				}
-			case bool:
-				pins = append(pins, fmt.Sprintf("(assert (= %s %v))", t, v))
-			default:
-				complete = false
-			}
-		}
+		p, ok := pinObserved(fmt.Sprintf("r%d", k), results[k].t, sig.Results().At(k).Type(), obs)
+		pins = append(pins, p...)
+		complete = complete && ok
 	}
 	return
 }
@@ -441,6 +523,12 @@ func runBatch(repo, pkgDir, pkgName string, imports map[string]string, sig *type
 			if pt == nil || isMathInt(pt) {
 				continue
 			}
+			for _, e := range tu[k].strs {
+				pre = append(pre, "govcFactsStr(out, "+e+")")
+			}
+			for _, e := range tu[k].ints {
+				pre = append(pre, "govcFactsInt(out, "+e+")")
+			}
 			if b, ok := types.Unalias(pt).Underlying().(*types.Basic); ok {
 				if b.Info()&types.IsString != 0 {
 					pre = append(pre, "govcFactsStr(out, string("+lits[k]+"))")
@@ -450,6 +538,18 @@ func runBatch(repo, pkgDir, pkgName string, imports map[string]string, sig *type
 			}
 		}
 		for k := 0; k < sig.Results().Len(); k++ {
+			if _, st, ok := plainStruct(sig.Results().At(k).Type()); ok {
+				for i := 0; i < st.NumFields(); i++ {
+					if b, ok := types.Unalias(st.Field(i).Type()).Underlying().(*types.Basic); ok && !isMathInt(st.Field(i).Type()) {
+						if b.Info()&types.IsString != 0 {
+							post = append(post, fmt.Sprintf("govcFactsStr(out, string(r%d.%s))", k, st.Field(i).Name()))
+						} else if b.Info()&types.IsInteger != 0 {
+							post = append(post, fmt.Sprintf("govcFactsInt(out, fmt.Sprint(r%d.%s))", k, st.Field(i).Name()))
+						}
+					}
+				}
+				continue
+			}
 			if b, ok := types.Unalias(sig.Results().At(k).Type()).Underlying().(*types.Basic); ok {
 				if b.Info()&types.IsString != 0 {
 					post = append(post, fmt.Sprintf("govcFactsStr(out, string(r%d))", k))
@@ -779,6 +879,7 @@ func mentions(formula string, syms map[string]bool) bool {
 // conformPrepare builds the formulas of one trusted spec; the returned continuation runs the real function and
 // the solver checks (nil when the spec is skipped).
 func (e *Engine) conformPrepare(key string, ct *Contract, max int) (*conformReport, func() *conformReport) {
+	curReg = e.types
 	rep := &conformReport{Spec: strings.ReplaceAll(key, repoMod+"/", ""), Source: ct.Src}
 	fn := e.lookupFn(key)
 	if fn == nil {
@@ -1018,6 +1119,7 @@ func (e *Engine) conformPrepare(key string, ct *Contract, max int) (*conformRepo
 }
 
 func (e *Engine) conformAll(filter string, max int) ([]*conformReport, int) {
+	curReg = e.types
 	var keys []string
 	for k, ct := range e.specs.contracts {
 		if ct.Trusted && (filter == "" || strings.Contains(k, filter)) {
